@@ -62,6 +62,10 @@ def main():
         common._kill_live_drivers()
         os._exit(2)
     _signal.signal(_signal.SIGTERM, _on_term)
+    # forked children (harness workers, and the solver member processes the real code forks from them) must die
+    # of SIGTERM at once as they would without this handler: a Python-level handler only runs between bytecodes,
+    # i.e. not while the child sits in a restarted blocking read -- Portfolio's terminate() relies on the default
+    os.register_at_fork(after_in_child=lambda: _signal.signal(_signal.SIGTERM, _signal.SIG_DFL))
     tier = args.tier if args.tier in ("quick", "thorough") else "quick"
     try:
         seed = int(os.environ.get("VERIF_SEED", "0"))
